@@ -4,9 +4,14 @@
 //!   CODECS                                   -> `name:ext,ext:magichex;...`  (running registry vs generated table)
 //!   LOWER <path>                             -> hex of the ASCII shape of `to_lowercase()` (non-ASCII runs -> `?`)
 //!   DETECT <path> <content>                  -> `R=<codec|plain> W=<codec|plain>`  decision of auto_detect_reader / _writer
-//!   RT <writer> <reader> <path> <plain>      -> `W=<codec|plain|other> R=<SAME|FAIL>`  write through an entry point, read back
-//!   RD <reader> <path> C <codec> <plain>     -> `DECODED|VERBATIM|FAIL`  file = genuine <codec> stream of <plain>
-//!   RD <reader> <path> P <raw>               -> `VERBATIM|FAIL`          file = these raw bytes
+//!   DETECTS <sched> <path> <content>         -> `R=<codec|plain>`  decision of auto_detect_reader on a `Read` whose i-th call
+//!                                               returns at most sched[i] bytes (`-` = every call fills the buffer)
+//!   RT <writer> <reader> <path> <plain> <opts>      -> `W=<codec|plain|other> R=<SAME|FAIL>`  write through an entry point, read back
+//!   RD <reader> <path> C <codec> <plain> <opts>     -> `DECODED|VERBATIM|FAIL`  file = genuine <codec> stream of <plain>
+//!   RD <reader> <path> P <raw> <opts>               -> `VERBATIM|FAIL`          file = these raw bytes
+//!   CGLOB <local_jsonl|local_csv|cloud_jsonl> <opts> (<path> <writer> <plain>)*  -> `W=<c1>,<c2>,.. R=<SAME|FAIL>`
+//!        every file written through its own writer entry point under its own name, all read through ONE glob call
+//!   opts = `sh=<k>,per=<k>,par=<0|1>,hdr=<0|1>` (writer shards, streaming shard size, collect_par?, csv header flag)
 //!
 //! Real side: the real entry points on real temp files / the fake object store. The decision of
 //! `auto_detect_reader` / `auto_detect_writer` is observed from the outside: the bytes that come out are
@@ -18,7 +23,7 @@
 //! true signature is stored and read back verbatim; genuine streams under a neutral name are decoded.
 
 use crate::ctx::{Ctx, guarded, hex};
-use ironbeam::io::cloud::readers::{read_cloud_jsonl_vec, write_cloud_jsonl_vec};
+use ironbeam::io::cloud::readers::{read_cloud_jsonl_glob, read_cloud_jsonl_vec, write_cloud_jsonl_vec};
 use ironbeam::io::cloud::{FakeObjectIO, ObjectIO};
 use ironbeam::io::compression::{auto_detect_reader, auto_detect_writer, verif_codec_table};
 use ironbeam::{
@@ -421,6 +426,69 @@ fn observe_reader(path: &str, content: &[u8]) -> String {
         _ => format!("AMBIG({})", cands.join("|")),
     }
 }
+/// A `Read` that honours a read schedule: the i-th call returns at most `sched[i]` bytes (>= 1),
+/// calls beyond the schedule fill the caller's buffer. Models pipes / sockets / chained readers.
+struct ChunkedRead {
+    data: Vec<u8>,
+    pos: usize,
+    sched: Vec<usize>,
+    call: usize,
+}
+impl Read for ChunkedRead {
+    fn read(&mut self, buf: &mut [u8]) -> std::io::Result<usize> {
+        let limit = self.sched.get(self.call).copied().unwrap_or(usize::MAX).max(1);
+        self.call += 1;
+        let n = buf.len().min(limit).min(self.data.len() - self.pos);
+        buf[..n].copy_from_slice(&self.data[self.pos..self.pos + n]);
+        self.pos += n;
+        Ok(n)
+    }
+}
+
+/// decision of `auto_detect_reader` on a source with the given read schedule
+fn observe_reader_sched(path: &str, content: &[u8], sched: &[usize]) -> String {
+    let got: Result<Vec<u8>, String> = match guarded(|| {
+        let src = ChunkedRead { data: content.to_vec(), pos: 0, sched: sched.to_vec(), call: 0 };
+        match auto_detect_reader(src, path) {
+            Ok(r) => drain(r),
+            Err(e) => Err(format!("{e:#}")),
+        }
+    }) {
+        Ok(x) => x,
+        Err(_) => return "PANIC".into(),
+    };
+    let mut cands: Vec<&str> = vec![];
+    if got.as_deref() == Ok(content) { cands.push("plain"); }
+    for (n, _, _) in SPEC {
+        if dec(n, content) == got { cands.push(n); }
+    }
+    match cands.len() {
+        1 => cands[0].to_string(),
+        0 => "UNKNOWN".into(),
+        _ => format!("AMBIG({})", cands.join("|")),
+    }
+}
+
+fn sched_tok(sched: &[usize]) -> String {
+    if sched.is_empty() { "-".into() } else { sched.iter().map(|k| k.to_string()).collect::<Vec<_>>().join(",") }
+}
+
+/// DETECTS: the reader's decision must not depend on how the source chunks its reads
+fn one_detect_sched(cx: &mut Ctx, path: &str, content: &[u8], sched: &[usize]) {
+    let r = observe_reader_sched(path, content, sched);
+    let ext = spec_ext(path);
+    let sig = spec_sig(content);
+    let i = cx.case(format!("DETECTS {} {} {}", sched_tok(sched), hx(path.as_bytes()), hx(content)), format!("R={r}"), ext.is_some() || sig.is_some());
+    cx.count(&format!("detects:R={}", if r.starts_with("AMBIG") { "AMBIG" } else { &r }));
+    cx.count(&format!("detects:first-read={}", match sched.first() { None => "full".to_string(), Some(k) if *k >= 6 => ">=6".to_string(), Some(k) => k.to_string() }));
+    let want_r = ext.or(sig).unwrap_or("plain");
+    if r != want_r {
+        let sig_name = if ext.is_none() && sig.is_none() { "neutral-plain-content-detected-as-compressed" }
+            else if ext.is_none() { "neutral-signature-not-recognised-short-first-read" } else { "extension-reader-decision-wrong" };
+        cx.oracle_fail(i, sig_name, format!("path {path:?} content {} read schedule [{}]: reader decision {r}, specification says {want_r}", hx(&content[..content.len().min(12)]), sched_tok(sched)));
+    }
+}
+
 fn observe_writer(path: &str, probe: &[u8]) -> String {
     let r = guarded(|| -> Result<Vec<u8>, String> {
         let buf = Shared(Arc::new(Mutex::new(Vec::new())));
@@ -459,6 +527,9 @@ fn one_detect(cx: &mut Ctx, path: &str, content: &[u8]) {
 }
 
 struct RtOpts { shards: usize, per: usize, par: bool }
+fn opts_tok(o: &RtOpts, headers: bool) -> String {
+    format!("sh={},per={},par={},hdr={}", o.shards, o.per, u8::from(o.par), u8::from(headers))
+}
 
 fn one_rt(cx: &mut Ctx, env: &mut Env, w: W, r: R, rel: &str, pl: &Payload, o: &RtOpts) {
     let path = env.fresh(rel);
@@ -483,7 +554,7 @@ fn one_rt(cx: &mut Ctx, env: &mut Env, w: W, r: R, rel: &str, pl: &Payload, o: &
     let sig = spec_sig(&pl.plain);
     let nt = ext.is_some() || sig.is_some();
     let i = cx.case(
-        format!("RT {} {} {} {}", w.tok(), r.tok(), hx(rel.as_bytes()), hx(&pl.plain)),
+        format!("RT {} {} {} {} {}", w.tok(), r.tok(), hx(rel.as_bytes()), hx(&pl.plain), opts_tok(o, pl.headers)),
         format!("W={wc} R={rc}"),
         nt,
     );
@@ -541,8 +612,8 @@ fn one_rd(cx: &mut Ctx, env: &mut Env, r: R, rel: &str, codec: Option<&'static s
     let ext = spec_ext(rel);
     let sig = spec_sig(&file);
     let req = match codec {
-        Some(c) => format!("RD {} {} C {} {}", r.tok(), hx(rel.as_bytes()), c, hx(&pl.plain)),
-        None => format!("RD {} {} P {}", r.tok(), hx(rel.as_bytes()), hx(&pl.plain)),
+        Some(c) => format!("RD {} {} C {} {} {}", r.tok(), hx(rel.as_bytes()), c, hx(&pl.plain), opts_tok(o, pl.headers)),
+        None => format!("RD {} {} P {} {}", r.tok(), hx(rel.as_bytes()), hx(&pl.plain), opts_tok(o, pl.headers)),
     };
     let i = cx.case(req, ans.to_string(), true);
     cx.count(&format!("rd:r={}", r.tok()));
@@ -562,6 +633,88 @@ fn one_rd(cx: &mut Ctx, env: &mut Env, r: R, rel: &str, codec: Option<&'static s
             cx.oracle_fail(i, "neutral-plain-content-not-read-verbatim", format!("plain content {} under neutral name {rel:?} read through {}: {ans} {detail}", hx(&file[..file.len().min(12)]), r.tok()));
         },
         _ => {}
+    }
+}
+
+#[derive(Clone, Copy, PartialEq, Eq)]
+enum G { LocalJsonl, LocalCsv, CloudJsonl }
+impl G {
+    fn tok(self) -> &'static str { match self { G::LocalJsonl => "local_jsonl", G::LocalCsv => "local_csv", G::CloudJsonl => "cloud_jsonl" } }
+}
+
+/// CGLOB: files (name, writer, payload) are written into one directory / key prefix, each through its own
+/// writer entry point under its own name (mixed codecs, case variants, neutral names side by side), then all
+/// are read back through ONE glob call: `read_jsonl(dir/*)`, `read_csv(dir/*)`, `read_cloud_jsonl_glob(g/*)`.
+/// Oracle: the result is the concatenation of all files' records in byte order of the names.
+fn one_glob(cx: &mut Ctx, env: &mut Env, g: G, files: &[(String, W, Payload)], o: &RtOpts) {
+    let mut files: Vec<(String, W, Payload)> = files.to_vec();
+    files.sort_by(|a, b| a.0.as_bytes().cmp(b.0.as_bytes()));
+    files.dedup_by(|a, b| a.0 == b.0);
+    let headers = files.iter().any(|f| f.2.headers);
+    let dir = env.fresh("g");
+    let store = FakeObjectIO::new();
+    let mut wcs: Vec<String> = vec![];
+    let mut detail = String::new();
+    for (name, w, pl) in &files {
+        let rel = format!("g/{name}");
+        let path = dir.join(name);
+        let res = guarded(|| -> Result<Vec<u8>, String> {
+            if g == G::CloudJsonl {
+                let recs: &[Row] = pl.recs.as_deref().unwrap_or(&[]);
+                e2s(write_cloud_jsonl_vec(&store, "b", &rel, recs))?;
+                e2s(store.get_object("b", &rel))
+            } else {
+                real_write(*w, &path, &rel, pl, o.shards)
+            }
+        });
+        match res {
+            Ok(Ok(stored)) => wcs.push(classify_stored(&stored, &pl.plain)),
+            Ok(Err(e)) => { wcs.push("ERR".into()); detail = format!("write error: {e}"); }
+            Err(m) => { wcs.push("PANIC".into()); detail = format!("writer panicked: {m}"); }
+        }
+    }
+    let want: Vec<Row> = files.iter().flat_map(|f| f.2.recs.clone().unwrap_or_default()).collect();
+    let got = guarded(|| -> Result<Vec<Row>, String> {
+        match g {
+            G::LocalJsonl => {
+                let p = Pipeline::default();
+                e2s(e2s(read_jsonl::<Row>(&p, dir.join("*")))?.collect_seq())
+            }
+            G::LocalCsv => {
+                let p = Pipeline::default();
+                e2s(e2s(read_csv::<Row>(&p, dir.join("*"), headers))?.collect_seq())
+            }
+            G::CloudJsonl => e2s(read_cloud_jsonl_glob::<Row, _>(&store, "b", "g/*")),
+        }
+    });
+    env.cleanup();
+    let rc = match got {
+        Ok(Ok(v)) => if v == want { "SAME" } else { detail = format!("read back {} records, expected {}", v.len(), want.len()); "FAIL" },
+        Ok(Err(e)) => { detail = format!("read error: {e}"); "FAIL" }
+        Err(m) => { detail = format!("reader panicked: {m}"); "FAIL" }
+    };
+    let mut req = format!("CGLOB {} {}", g.tok(), opts_tok(o, headers));
+    for (name, w, pl) in &files {
+        let wt = if g == G::CloudJsonl { W::CloudJsonl } else { *w };
+        req.push_str(&format!(" {} {} {}", hx(format!("g/{name}").as_bytes()), wt.tok(), hx(&pl.plain)));
+    }
+    let i = cx.case(req, format!("W={} R={rc}", wcs.join(",")), true);
+    cx.count(&format!("glob:{}", g.tok()));
+    cx.count(&format!("glob:files={}", files.len()));
+    let mut sound = true;
+    for ((name, w, pl), wc) in files.iter().zip(&wcs) {
+        let ext = spec_ext(name);
+        let sig = spec_sig(&pl.plain);
+        cx.count(&format!("glob:file:{}", ext.unwrap_or("neutral")));
+        match ext {
+            Some(c) => if wc != c {
+                cx.oracle_fail(i, &format!("codec-extension-not-stored-compressed:{}", w.tok()), format!("glob member {name:?}: stored as {wc}, expected a genuine {c} stream ({detail})"));
+            },
+            None => if sig.is_none() { if wc != "plain" { cx.oracle_fail(i, "neutral-name-not-stored-verbatim", format!("glob member {name:?}: stored as {wc}")); } } else { sound = false; },
+        }
+    }
+    if sound && rc != "SAME" {
+        cx.oracle_fail(i, &format!("glob-read-of-compressed-files-fails:{}", g.tok()), format!("{} files {:?}: {detail}", files.len(), files.iter().map(|f| f.0.as_str()).collect::<Vec<_>>()));
     }
 }
 
@@ -720,6 +873,24 @@ pub fn run(cx: &mut Ctx) {
     one_rd(cx, &mut env, R::Raw, "plain.txt", None, &payload_b(b"BZ".to_vec()), &o2);
     one_detect(cx, "plain.csv", b"BZ,1\nfoo,2\n");
     one_detect(cx, "notes.txt", b"BZ");
+    // glob reads over files of different codecs side by side (local JSONL / CSV, cloud keys)
+    {
+        let a = vec![Row { name: "a".into(), n: 1 }, Row { name: "BZh".into(), n: 2 }];
+        let b = vec![Row { name: "b".into(), n: 3 }];
+        let c = vec![Row { name: "c".into(), n: 4 }, Row { name: "d".into(), n: 5 }, Row { name: "e".into(), n: 6 }];
+        let fj = vec![("a.jsonl.gz".to_string(), W::JsonlPar, payload_j(a.clone())), ("b.jsonl".to_string(), W::JsonlVec, payload_j(b.clone())),
+            ("c.JSONL.ZST".to_string(), W::PcJsonlPar, payload_j(c.clone())), ("d.dat".to_string(), W::PcJsonl, payload_j(vec![])), (".bz2".to_string(), W::JsonlVec, payload_j(b.clone()))];
+        one_glob(cx, &mut env, G::LocalJsonl, &fj, &o2);
+        one_glob(cx, &mut env, G::CloudJsonl, &fj, &o2);
+        let fc = vec![("a.csv.xz".to_string(), W::CsvPar, payload_c(a.clone(), true)), ("b.csv".to_string(), W::CsvVec, payload_c(b.clone(), true)),
+            ("c.csv.Bz2".to_string(), W::PcCsvPar, payload_c(c.clone(), true)), ("d.gzip".to_string(), W::PcCsv, payload_c(a.clone(), true))];
+        one_glob(cx, &mut env, G::LocalCsv, &fc, &o2);
+    }
+    // a genuine stream under a neutral name whose source delivers its first byte alone
+    for (c, _, _) in SPEC {
+        let g = enc(c, b"{\"name\":\"a\",\"n\":1}\n");
+        one_detect_sched(cx, "x.dat", &g, &[1]);
+    }
 
     // ---- (2) exhaustive small scope ----
     let exts = all_exts();
@@ -809,6 +980,72 @@ pub fn run(cx: &mut Ctx) {
     }
     cx.exhaustive_blocks.push(format!("RD: {} names x (genuine stream of every codec | plain text | every signature-prefix content) x every reader = {nrd} cases", rd_names.len()));
 
+    // the reader's decision on sources that deliver their first bytes in short reads
+    let scheds: [&[usize]; 7] = [&[1], &[1, 1, 1, 1, 1, 1, 1, 1], &[2], &[3, 1], &[5], &[6], &[1, 8192]];
+    let mut nds = 0;
+    let ds_names = ["x.dat", "x", "x.jsonl", "x.GZ", "x.csv.zst", "x.gz.bak"];
+    let mut ds_contents: Vec<Vec<u8>> = contents.clone();
+    for (c, _, _) in SPEC {
+        ds_contents.push(enc(c, &jsonl_plain(&bzh)));
+        ds_contents.push(enc(c, b""));
+    }
+    for n in ds_names {
+        for c in &ds_contents {
+            for sc in scheds { one_detect_sched(cx, n, c, sc); nds += 1; }
+        }
+    }
+    cx.exhaustive_blocks.push(format!("DETECTS: {} names x {} contents (the signature-prefix contents + a genuine stream and an empty genuine stream of every codec) x {} read schedules (first read of 1, 2, 3, 5, 6 bytes; byte-by-byte; 1 then full) = {nds} cases", ds_names.len(), ds_contents.len(), scheds.len()));
+
+    // content larger than the 8 KiB BufReader, plain and compressed, through every entry point
+    let mut nbig = 0;
+    {
+        let big: Vec<Row> = (0..cx.budget(700, 1100)).map(|i| Row { name: big_name(cx), n: i as i64 * 7919 - 1000 }).collect();
+        let pj = payload_j(big.clone());
+        let pc = payload_c(big.clone(), true);
+        for (c, _, _) in SPEC {
+            let zj = enc(c, &pj.plain);
+            let zc = enc(c, &pc.plain);
+            cx.count(&format!("big:compressed-size>{}", if zj.len() > 8192 && zc.len() > 8192 { "8KiB" } else { "SMALL(unexpected)" }));
+        }
+        // writer shards 2 / 1: every part file / buffer of the parallel writers is itself larger than 8 KiB
+        let ob = RtOpts { shards: 2, per: 100, par: true };
+        let os = RtOpts { shards: 1, per: 64, par: false };
+        cx.count(&format!("big:smallest-part-bytes>{}", if pj.plain.len() / 2 > 8192 + 64 && pc.plain.len() / 2 > 8192 + 64 { "8KiB" } else { "SMALL(unexpected)" }));
+        for (k, n) in ["big.d.gz", "big.d.ZST", "big.d.bz2", "big.d.xz", "big.dat"].iter().enumerate() {
+            for w in J_WRITERS { let r = J_READERS[(k + nbig) % J_READERS.len()]; one_rt(cx, &mut env, w, r, n, &pj, if nbig % 2 == 0 { &ob } else { &os }); nbig += 1; }
+            for w in C_WRITERS { let r = C_READERS[(k + nbig) % C_READERS.len()]; one_rt(cx, &mut env, w, r, n, &pc, if nbig % 2 == 0 { &ob } else { &os }); nbig += 1; }
+        }
+        for (c, _, _) in SPEC {
+            for r in J_READERS { one_rd(cx, &mut env, r, "big.dat", Some(c), &pj, &ob); nbig += 1; }
+            for r in C_READERS { one_rd(cx, &mut env, r, "big", Some(c), &pc, &os); nbig += 1; }
+            let z = enc(c, &pj.plain);
+            one_detect_sched(cx, "big.dat", &z, &[1]);
+            one_detect_sched(cx, "big.dat", &z, &[]);
+            nbig += 2;
+        }
+    }
+    cx.exhaustive_blocks.push(format!("BIG: one data set whose plain and compressed forms both exceed the 8 KiB reader buffer: every writer entry point x 5 names (4 codecs + neutral) with rotating readers; a genuine stream of every codec under a neutral name through every reader; short-first-read detection = {nbig} cases"));
+
+    // glob reads: every codec side by side in one directory / key prefix
+    let mut ngl = 0;
+    for g in [G::LocalJsonl, G::LocalCsv, G::CloudJsonl] {
+        for variant in 0..cx.budget(3, 6) {
+            let h = variant % 2 == 0;
+            let mut files = vec![];
+            for (k, e) in exts.iter().enumerate() {
+                let recs = vec![Row { name: format!("r{k}"), n: k as i64 }, Row { name: "BZh".into(), n: -(k as i64) }];
+                let name = format!("f{k}.d{}", case_variant(cx, e, variant % 4));
+                let (w, pl) = if g == G::LocalCsv { (C_WRITERS[1 + (k + variant) % 4], payload_c(recs, h)) } else { (J_WRITERS[1 + (k + variant) % 4], payload_j(recs)) };
+                files.push((name, w, pl));
+            }
+            let plain_recs = vec![Row { name: "plain".into(), n: 0 }];
+            files.push(("m.dat".to_string(), if g == G::LocalCsv { W::CsvVec } else { W::JsonlVec }, if g == G::LocalCsv { payload_c(plain_recs, h) } else { payload_j(plain_recs) }));
+            one_glob(cx, &mut env, g, &files, &RtOpts { shards: 1 + variant % 3, per: 2, par: false });
+            ngl += 1;
+        }
+    }
+    cx.exhaustive_blocks.push(format!("GLOB: read_jsonl(dir/*), read_csv(dir/*), read_cloud_jsonl_glob(g/*) over a directory holding one file per extension (rotating case variants and writer entry points) plus a neutral file = {ngl} cases"));
+
     // ---- (3) random block ----
     let rounds = if cx.tier == crate::ctx::Tier::Search { 12000 } else { cx.budget(1500, 60000) };
     for _ in 0..rounds {
@@ -835,9 +1072,20 @@ pub fn run(cx: &mut Ctx) {
                 let o = gen_opts(cx, 1);
                 one_rt(cx, &mut env, W::Raw, R::Raw, &name, &payload_b(c), &o);
             }
-            5 | 6 => {
+            5 => {
                 let c = gen_bytes(cx, &contents);
                 one_detect(cx, &name, &c);
+            }
+            6 => {
+                // a source with a random read schedule; content: bytes around signatures or a genuine stream
+                let c = if cx.rng.chance(1, 2) { gen_bytes(cx, &contents) } else {
+                    let recs = gen_rows(cx, 3);
+                    enc(SPEC[cx.rng.below(4)].0, &jsonl_plain(&recs))
+                };
+                let k = cx.rng.below(5);
+                let sched: Vec<usize> = (0..k).map(|_| *cx.rng.pick(&[1usize, 1, 2, 3, 5, 6, 7, 100])).collect();
+                one_detect_sched(cx, &name, &c, &sched);
+                if cx.rng.chance(1, 6) { gen_glob(cx, &mut env); }
             }
             7 => {
                 let o = gen_opts(cx, 1);
@@ -860,6 +1108,38 @@ pub fn run(cx: &mut Ctx) {
             }
         }
     }
+}
+
+/// a 24-character name that does not compress well
+fn big_name(cx: &mut Ctx) -> String {
+    const A: &[u8] = b"abcdefghijklmnopqrstuvwxyzABCDEFGHIJKLMNOPQRSTUVWXYZ0123456789";
+    (0..24).map(|_| A[cx.rng.below(A.len())] as char).collect()
+}
+
+/// a random directory of 1..4 files with random names (no '/'), writers and payloads, read through a glob
+fn gen_glob(cx: &mut Ctx, env: &mut Env) {
+    let g = *cx.rng.pick(&[G::LocalJsonl, G::LocalCsv, G::CloudJsonl]);
+    let h = cx.rng.chance(1, 2);
+    let k = 1 + cx.rng.below(4);
+    let mut files = vec![];
+    for _ in 0..k {
+        let mut name = gen_name(cx);
+        if let Some(p) = name.rfind('/') { name = name[p + 1..].to_string(); }
+        if name.is_empty() || name == "." || name == ".." { name = format!("f{name}"); }
+        let recs = gen_rows(cx, 4);
+        if g == G::LocalCsv {
+            let w = *cx.rng.pick(&C_WRITERS[1..]);
+            files.push((name, w, payload_c(recs, h)));
+        } else {
+            let w = *cx.rng.pick(&J_WRITERS[1..5]);
+            files.push((name, w, payload_j(recs)));
+        }
+    }
+    // csv: one header flag for the whole directory (read_csv applies it to every file)
+    let nmax = files.iter().map(|f| f.2.recs.as_ref().map_or(0, Vec::len)).max().unwrap_or(0);
+    let o = gen_opts(cx, nmax.max(1));
+    let o = RtOpts { shards: 1 + o.shards % 2, ..o };
+    one_glob(cx, env, g, &files, &o);
 }
 
 fn gen_bytes(cx: &mut Ctx, contents: &[Vec<u8>]) -> Vec<u8> {
